@@ -28,7 +28,11 @@ CORPUS = {
     "floor-div-negative": S("a = -7\nwhile True:\n    mon.write(a // 2)\n    mon.write(a % 3)\n    a = a + 3\n    sleep(10)\n"),
     "comparisons-and-bool": S("a = 1\nb = 3\nwhile True:\n    mon.write(a < b)\n    mon.write(a == b)\n    mon.write(a < b and b < 5)\n    mon.write(a > b or b >= 3)\n    mon.write(not a < b)\n    mon.write(0 < a < b)\n    a = a + 1\n    sleep(1)\n"),
     "conditional-expression": S("n = 0\nwhile True:\n    n = n + 1\n    mon.write(n if n % 2 == 0 else -n)\n    big = 10 if n > 2 else 1\n    mon.write(big)\n    sleep(1)\n"),
-    "builtins": S("a = -4\nx = 2.75\nwhile True:\n    mon.write(abs(a))\n    mon.write(max(a, 2))\n    mon.write(min(a, 2))\n    mon.write(int(x))\n    mon.write(float(a))\n    mon.write(abs(x - 3))\n    mon.write(max(x, a))\n    a = a + 3\n    x = x + 0.5\n    sleep(1)\n"),
+    "builtins": S("a = -4\nx = 2.75\nwhile True:\n    mon.write(abs(a))\n    mon.write(max(a, 2))\n    mon.write(min(a, 2))\n    mon.write(int(x))\n    mon.write(float(a))\n    mon.write(abs(x - 3))\n    a = a + 3\n    x = x + 0.5\n    sleep(1)\n"),
+    "max-of-int-and-float": S("a = -4\nx = 2.75\nwhile True:\n    mon.write(max(x, a))\n    mon.write(min(x, a))\n    a = a + 5\n    sleep(1)\n"),
+    "helper-called-with-int-and-float-variables": S("def dbl(v):\n    return v * 2\nn = 3\nf = 1.5\nwhile True:\n    a = dbl(n)\n    b = dbl(f)\n    mon.write(a)\n    mon.write(b)\n    n = n + 1\n    sleep(1)\n"),
+    "helper-int-float-int-call-order": S("def scale(v, k):\n    r = v * k\n    return r\nsteps = scale(3, 2)\nmon.write(steps)\ngain = 2.5\nlevel = scale(gain, 3)\nmon.write(level)\nn = 0\n"
+                                         "while True:\n    n += 1\n    mon.write(f'n={n} s={scale(n, 4)}')\n    s2 = scale(n, 5)\n    mon.write(s2)\n    sleep(scale(n, 10))\n"),
     "min-max-three": S("a = 5\nb = 2\nc = 9\nwhile True:\n    mon.write(max(a, b, c))\n    mon.write(min(a, b, c))\n    a = a + 3\n    b = b + 5\n    sleep(1)\n"),
     "strings": S("name = 'ab'\nn = 1\nwhile True:\n    mon.write(name + '!')\n    mon.write('n=' + str(n))\n    mon.write(f'{name}:{n}')\n    name = name + 'c'\n    n = n + 1\n    sleep(1)\n"),
     "len-of-growing-string": S("name = 'ab'\nwhile True:\n    mon.write(len(name))\n    name = name + 'c'\n    sleep(1)\n"),
